@@ -551,24 +551,31 @@ theorem scanNext_fields (s : StaleScan) (db : Nat) (cpi : CpInfo) :
     · exact Or.inr (by simpa using hp)
   · exact Or.inl hp
 
-private theorem staleScan_newest_aux {id1 id2 A n r : Bytes} {d : Nat} {X : Int}
-    (hA : A = id1 ∨ A = id2) {t : Target} (hi : Inv id1 id2 A t n r d X) (order : List Nat) :
+/-- one id alone: database `d` reads its largest offset `X ≥ 0`, every `_offset` field of the id
+    in another database is smaller, its numeric fields parse -/
+structure Solo (rid : Bytes) (t : Target) (name : Bytes) (d : Nat) (X : Int) : Prop where
+  nonneg : 0 ≤ X
+  parses : ∀ db, Parses [rid] (t.cps db name)
+  off : offOf [rid] (t.cps d name) = X
+  below : ∀ db, db ≠ d → OffBelow [rid] (t.cps db name) X
+
+private theorem staleScan_newest_aux {rid name : Bytes} {d : Nat} {X : Int} {t : Target}
+    (hi : Solo rid t name d X) (order : List Nat) :
     ∀ (s0 s : StaleScan), SInv d X s0 →
-      order.foldl (staleScanStep t n A) (some s0) = some s → SInv d X s := by
+      order.foldl (staleScanStep t name rid) (some s0) = some s → SInv d X s := by
   induction order with
   | nil => intro s0 s h0 h; simp only [List.foldl_nil, Option.some.injEq] at h; subst h; exact h0
   | cons db rest ih =>
     intro s0 s h0 h
     simp only [List.foldl_cons] at h
-    have hsub := matchId_one_sub id1 id2 A hA
-    obtain ⟨cpi, hf, hoff, _⟩ := fetch_spec [A] (t.cps db n) ((hi.holds.parses db).sub hsub)
-    rw [staleScanStep_some t n A s0 db cpi hf] at h
+    obtain ⟨cpi, hf, hoff, _⟩ := fetch_spec [rid] (t.cps db name) (hi.parses db)
+    rw [staleScanStep_some t name rid s0 db cpi hf] at h
     refine ih _ s ?_ h
     obtain ⟨e1, e2, e3⟩ := scanNext_fields s0 db cpi
     have hle := h0.le
     by_cases hdb : db = d
     · subst hdb
-      have hX : cpi.offset = X := by rw [hoff]; exact hi.carrier.1
+      have hX : cpi.offset = X := by rw [hoff]; exact hi.off
       refine ⟨?_, ?_, ?_⟩
       · rw [e1]; split <;> omega
       · intro _; rw [e2]; split
@@ -576,7 +583,7 @@ private theorem staleScan_newest_aux {id1 id2 A n r : Bytes} {d : Nat} {X : Int}
         · exact h0.eq (by omega)
       · intro p _ _; rw [e1]; split <;> omega
     · have hlt : cpi.offset < X := by
-        rw [hoff]; exact offOf_lt_of_below ((hi.holds.dom db hdb).sub hsub) hi.holds.nonneg
+        rw [hoff]; exact offOf_lt_of_below (hi.below db hdb) hi.nonneg
       refine ⟨?_, ?_, ?_⟩
       · rw [e1]; split <;> omega
       · rw [e1, e2]; split
@@ -588,15 +595,71 @@ private theorem staleScan_newest_aux {id1 id2 A n r : Bytes} {d : Nat} {X : Int}
           rw [e1]; split <;> omega
         · subst hp; exact absurd hpd hdb
 
+theorem staleScan_newest_solo {rid name : Bytes} {d : Nat} {X : Int} {t : Target}
+    (hi : Solo rid t name d X) (order : List Nat)
+    (s : StaleScan) (h : staleScan t name rid order = some s) :
+    ∀ p ∈ s.found, p.1 = d → s.newestDb = d := by
+  have h0 : SInv d X {} := ⟨by have := hi.nonneg; simp; omega,
+    by intro h; have := hi.nonneg; simp at h; omega, by simp⟩
+  have := staleScan_newest_aux hi order {} s h0 h
+  intro p hp hpd
+  exact this.eq (this.found p hp hpd)
+
+theorem Inv.solo {id1 id2 A n r : Bytes} {d : Nat} {X : Int} {t : Target}
+    (hA : A = id1 ∨ A = id2) (hi : Inv id1 id2 A t n r d X) : Solo A t n d X :=
+  ⟨hi.holds.nonneg, fun db => (hi.holds.parses db).sub (matchId_one_sub id1 id2 A hA), hi.carrier.1,
+   fun db hdb => (hi.holds.dom db hdb).sub (matchId_one_sub id1 id2 A hA)⟩
+
 theorem staleScan_newest {id1 id2 A n r : Bytes} {d : Nat} {X : Int}
     (hA : A = id1 ∨ A = id2) {t : Target} (hi : Inv id1 id2 A t n r d X) (order : List Nat)
     (s : StaleScan) (h : staleScan t n A order = some s) :
-    ∀ p ∈ s.found, p.1 = d → s.newestDb = d := by
-  have h0 : SInv d X {} := ⟨by have := hi.holds.nonneg; simp; omega,
-    by intro h; have := hi.holds.nonneg; simp at h; omega, by simp⟩
-  have := staleScan_newest_aux hA hi order {} s h0 h
-  intro p hp hpd
-  exact this.eq (this.found p hp hpd)
+    ∀ p ∈ s.found, p.1 = d → s.newestDb = d :=
+  staleScan_newest_solo (hi.solo hA) order s h
+
+/-- read with one id through own `_runid` fields, the run id is that id or "?" -/
+theorem fetch_one_runId (rid : Bytes) : ∀ (fs : Cp) (c : CpInfo), (∀ e ∈ fs, e.kind = .runid → e.val = e.rid) →
+    ∀ c0 : CpInfo, (c0.runId = rid ∨ c0.runId = qmark) →
+    fs.foldl (fetchStep [rid]) (some c0) = some c → (c.runId = rid ∨ c.runId = qmark) := by
+  intro fs
+  induction fs with
+  | nil => intro c _ c0 h0 h; simp only [List.foldl_nil, Option.some.injEq] at h; subst h; exact h0
+  | cons y fs ih =>
+    intro c hown c0 h0 h
+    simp only [List.foldl_cons] at h
+    have hnone : ∀ l : Cp, l.foldl (fetchStep [rid]) none = none := by
+      intro l; induction l with
+      | nil => rfl
+      | cons _ _ ihl => simpa [fetchStep] using ihl
+    cases hstep : fetchStep [rid] (some c0) y with
+    | none => rw [hstep, hnone] at h; exact absurd h (by simp)
+    | some c1 =>
+      rw [hstep] at h
+      refine ih c (fun e he => hown e (List.mem_cons_of_mem _ he)) c1 ?_ h
+      unfold fetchStep at hstep
+      by_cases hm : matchId [rid] y.rid = true
+      · simp only [hm, if_true] at hstep
+        cases hk : y.kind with
+        | runid =>
+          simp only [hk, Option.some.injEq] at hstep
+          subst hstep
+          left; simp only
+          rw [hown y (List.mem_cons_self ..) hk]
+          exact (matchId_one rid y.rid).mp hm
+        | offset =>
+          simp only [hk] at hstep
+          cases hv : Resp.parseInt64 y.val with
+          | none => simp [hv] at hstep
+          | some v => simp only [hv, Option.map_some, Option.some.injEq] at hstep; subst hstep; exact h0
+        | mtime =>
+          simp only [hk] at hstep
+          cases hv : Resp.parseInt64 y.val with
+          | none => simp [hv] at hstep
+          | some v => simp only [hv, Option.map_some, Option.some.injEq] at hstep; subst hstep; exact h0
+        | version => simp only [hk, Option.some.injEq] at hstep; subst hstep; exact h0
+        | other => simp only [hk, Option.some.injEq] at hstep; subst hstep; exact h0
+      · simp only [hm] at hstep
+        simp only [Bool.false_eq_true, if_false, Option.some.injEq] at hstep
+        subst hstep; exact h0
 
 /-- the requests of one `DelStaleCheckpoint` call are safe for the held position -/
 theorem delStale_safe {id1 id2 A n r : Bytes} {d : Nat} {X : Int}
@@ -636,50 +699,7 @@ theorem delStale_safe {id1 id2 A n r : Bytes} {d : Nat} {X : Int}
         have hfetch := staleScan_found t cpn rid order {} s (by simp) hs p hpf
         -- the run id read with [rid] is rid or "?"
         have hown : ∀ e ∈ t.cps p.1 cpn, e.kind = .runid → e.val = e.rid := hown p.1
-        have h2 : ∀ (fs : Cp) (c : CpInfo), (∀ e ∈ fs, e.kind = .runid → e.val = e.rid) →
-            ∀ c0 : CpInfo, (c0.runId = rid ∨ c0.runId = qmark) →
-            fs.foldl (fetchStep [rid]) (some c0) = some c → (c.runId = rid ∨ c.runId = qmark) := by
-          intro fs
-          induction fs with
-          | nil => intro c _ c0 h0 h; simp only [List.foldl_nil, Option.some.injEq] at h; subst h; exact h0
-          | cons y fs ih =>
-            intro c hown c0 h0 h
-            simp only [List.foldl_cons] at h
-            have hnone : ∀ l : Cp, l.foldl (fetchStep [rid]) none = none := by
-              intro l; induction l with
-              | nil => rfl
-              | cons _ _ ihl => simpa [fetchStep] using ihl
-            cases hstep : fetchStep [rid] (some c0) y with
-            | none => rw [hstep, hnone] at h; exact absurd h (by simp)
-            | some c1 =>
-              rw [hstep] at h
-              refine ih c (fun e he => hown e (List.mem_cons_of_mem _ he)) c1 ?_ h
-              unfold fetchStep at hstep
-              by_cases hm : matchId [rid] y.rid = true
-              · simp only [hm, if_true] at hstep
-                cases hk : y.kind with
-                | runid =>
-                  simp only [hk, Option.some.injEq] at hstep
-                  subst hstep
-                  left; simp only
-                  rw [hown y (List.mem_cons_self ..) hk]
-                  exact (matchId_one rid y.rid).mp hm
-                | offset =>
-                  simp only [hk] at hstep
-                  cases hv : Resp.parseInt64 y.val with
-                  | none => simp [hv] at hstep
-                  | some v => simp only [hv, Option.map_some, Option.some.injEq] at hstep; subst hstep; exact h0
-                | mtime =>
-                  simp only [hk] at hstep
-                  cases hv : Resp.parseInt64 y.val with
-                  | none => simp [hv] at hstep
-                  | some v => simp only [hv, Option.map_some, Option.some.injEq] at hstep; subst hstep; exact h0
-                | version => simp only [hk, Option.some.injEq] at hstep; subst hstep; exact h0
-                | other => simp only [hk, Option.some.injEq] at hstep; subst hstep; exact h0
-              · simp only [hm] at hstep
-                simp only [Bool.false_eq_true, if_false, Option.some.injEq] at hstep
-                subst hstep; exact h0
-        have := h2 (t.cps p.1 cpn) p.2 hown {} (Or.inr rfl) hfetch
+        have := fetch_one_runId rid (t.cps p.1 cpn) p.2 hown {} (Or.inr rfl) hfetch
         rcases this with h | h
         · rw [h]; exact hrid
         · rw [h]; exact hq.symm
